@@ -132,7 +132,8 @@ DocSeq ==
 
 StyleSeq == << StdStyle,
                [StdStyle EXCEPT !.q = 34, !.sp = <<32>>, !.paren = "full"],
-               [StdStyle EXCEPT !.sp = <<9, 10, 13>>, !.uni = TRUE, !.num = "float"] >>
+               [StdStyle EXCEPT !.sp = <<9, 10, 13>>, !.uni = TRUE, !.num = "float"],
+               [StdStyle EXCEPT !.num = "Eneg", !.q = 34] >>
 
 M == INSTANCE EvalMachine WITH Queries <- QuerySet, DocSeq <- DocSeq, Styles <- StyleSeq, Ctx <- Obj(<<>>, <<>>)
 Spec == M!Spec
